@@ -154,6 +154,37 @@ def iter_items(interp, env, v):
     return None
 
 
+def vec_slice_len(interp, env, v):
+    v = load(interp, env, v)
+    if isinstance(v, Vec):
+        return len(heap_get(interp, v.vid))
+    if isinstance(v, Agg) and v.kind in ("array", "slice"):
+        return len(v.fields)
+    return TOP
+
+
+def vec_index(interp, env, v, e):
+    """hook for `v[i]` / constant-index patterns on heap vectors"""
+    v = load(interp, env, v)
+    if isinstance(v, Vec):
+        items = heap_get(interp, v.vid)
+        if e[0] == "ci":
+            idx = (len(items) - e[1]) if e[2] else e[1]
+        elif e[0] == "i":
+            idx = env.get(e[1], TOP)
+        else:
+            return TOP
+        if isinstance(idx, int) and not isinstance(idx, bool) and 0 <= idx < len(items):
+            return items[idx]
+    return TOP
+
+
+def install(interp):
+    interp.slice_len = vec_slice_len
+    interp.index_hook = vec_index
+    return interp
+
+
 def coll_oracle(interp, env, f, args, t, bb, path):
     k = f.get("resolved", {}).get("key") or f.get("key", "")
     dk = f.get("key", "")
@@ -274,6 +305,16 @@ def coll_oracle(interp, env, f, args, t, bb, path):
             interp.mstate["shuffled"] = interp.mstate.get("shuffled", ()) + (v0.vid,)
             return unit
         by_ref = (f.get("resolved", {}).get("key") or "").startswith("<&") or ((f.get("gargs") or [""])[0].startswith("&")) or not isinstance(a0, Vec)
+        if nm in ("chunks", "chunks_exact", "chunks_mut", "chunks_exact_mut") and isinstance(args[1], int) and args[1] > 0:
+            c = args[1]
+            refs = [HRef(v0.vid, i) for i in range(len(items))]
+            out = [Agg("slice", None, None, refs[i:i + c]) for i in range(0, len(refs), c)]
+            if nm.startswith("chunks_exact"):
+                out = [x for x in out if len(x.fields) == c]
+            return It(out)
+        if nm == "windows" and isinstance(args[1], int) and args[1] > 0:
+            refs = [HRef(v0.vid, i) for i in range(len(items))]
+            return It([Agg("slice", None, None, refs[i:i + args[1]]) for i in range(0, len(refs) - args[1] + 1)])
         if nm in ("iter", "iter_mut") or (nm == "into_iter" and by_ref):
             return It([HRef(v0.vid, i) for i in range(len(items))])
         if nm == "into_iter":
